@@ -12,6 +12,7 @@ import (
 	"gitlab.com/aquachain/aquachain/aqua/event"
 	"gitlab.com/aquachain/aquachain/aquadb"
 	"gitlab.com/aquachain/aquachain/common"
+	"gitlab.com/aquachain/aquachain/common/verifhook"
 	"gitlab.com/aquachain/aquachain/consensus"
 	"gitlab.com/aquachain/aquachain/core"
 	"gitlab.com/aquachain/aquachain/core/types"
@@ -28,7 +29,7 @@ import (
 // must be accepted with identical receipts and post-state.
 
 type MineStep struct {
-	Kind string    `json:"k"`            // tx | mine | sibling
+	Kind string    `json:"k"`            // tx | mine | sibling | race (the mined block's write is held while a sibling of it is imported)
 	Tx   *TxRecipe `json:"tx,omitempty"` // tx: submitted to the pool (local or remote)
 	Wait int       `json:"wait,omitempty"`
 	Rem  bool      `json:"remote,omitempty"`
@@ -42,6 +43,7 @@ type MinePlan struct {
 	Recipe    Recipe     `json:"universe"` // genesis only (no recipe blocks)
 	Steps     []MineStep `json:"steps"`
 	OrderSeed uint64     `json:"order_seed,omitempty"`
+	Race      bool       `json:"race,omitempty"` // plan of the C02 sub-mode "mined block versus imported block"
 }
 
 func DecodeMinePlan(raw json.RawMessage) (any, error) {
@@ -82,6 +84,23 @@ func GenMinePlan(rng *kernel.RNG, env *kernel.Env, k int) any {
 		}
 	}
 	p.Steps = append(p.Steps, MineStep{Kind: "mine", Wait: 3}, MineStep{Kind: "mine", Wait: 3})
+	return p
+}
+
+// GenMineRacePlan: miner histories in which the write of a freshly mined block and the import
+// of a competing block of the same height overlap (C02: the head stays a heaviest block).
+func GenMineRacePlan(rng *kernel.RNG, env *kernel.Env, k int) any {
+	p := GenMinePlan(rng, env, k).(*MinePlan)
+	p.Race = true
+	var steps []MineStep
+	for _, st := range p.Steps {
+		if st.Kind == "mine" && rng.Intn(2) == 0 {
+			// Extra: 0 = the sibling is stamped later than the mined block can be (lighter), 1 = as early as allowed (heavier)
+			st = MineStep{Kind: "race", Wait: []int{2, 5, 30, 240}[rng.Intn(4)], Extra: rng.Intn(2), Depth: []int{1, 2, 7, 60, 600}[rng.Intn(5)]}
+		}
+		steps = append(steps, st)
+	}
+	p.Steps = append(steps, MineStep{Kind: "race", Wait: 5, Extra: 1, Depth: 1}, MineStep{Kind: "mine", Wait: 3})
 	return p
 }
 
@@ -231,6 +250,31 @@ func execMine(p *MinePlan, col *kernel.Collector) []kernel.Violation {
 	eng := &gatedEngine{Engine: u.Engine, gate: make(chan struct{})}
 	mn := miner.New(&minerBackend{bc: M.BC, pool: pool, db: M.Disk}, u.Cfg, mux, eng)
 	coinbase := u.Addrs[0]
+	// race steps: the next WriteBlockWithState that arrives while holdNext is set parks before
+	// it takes the chain mutex (guarded yield point), until the step releases it
+	var (
+		hookMu   = make(chan struct{}, 1)
+		holdNext bool
+		parked   = make(chan common.Hash, 4)
+		release  = make(chan struct{})
+	)
+	hookMu <- struct{}{}
+	prevYield := verifhook.Yield
+	verifhook.Yield = func(site string, arg interface{}) {
+		if site != "blockchain.WriteBlockWithState.lock" {
+			return
+		}
+		<-hookMu
+		hold := holdNext
+		holdNext = false
+		hookMu <- struct{}{}
+		if hold {
+			h, _ := arg.(common.Hash)
+			parked <- h
+			<-release
+		}
+	}
+	defer func() { verifhook.Yield = prevYield }()
 	// keep the clock ahead of the head's timestamp: the worker sleeps with its locks
 	// held when the next timestamp would lie in the future
 	ahead := func(extra time.Duration) {
@@ -354,6 +398,107 @@ func execMine(p *MinePlan, col *kernel.Collector) []kernel.Violation {
 				continue
 			}
 			col.Inc("blocks_mined")
+			if !importOwn(i) {
+				return vs
+			}
+		case "race":
+			ahead(time.Duration(st.Wait) * time.Second)
+			if st.Wait >= 30 {
+				ahead(0)
+				mn.Stop()
+				time.Sleep(100 * time.Millisecond)
+				ahead(0)
+				mn.Start(coinbase)
+				time.Sleep(100 * time.Millisecond)
+			}
+			head := M.BC.CurrentBlock()
+			<-hookMu
+			holdNext = true
+			hookMu <- struct{}{}
+			select {
+			case eng.gate <- struct{}{}:
+			case <-time.After(5 * time.Second):
+				col.Inc("probe_no_sealer_waiting")
+			}
+			var minedHash common.Hash
+			select {
+			case minedHash = <-parked:
+			case <-time.After(5 * time.Second):
+			}
+			<-hookMu
+			holdNext = false
+			hookMu <- struct{}{}
+			if minedHash == (common.Hash{}) {
+				select {
+				case minedHash = <-parked: // it arrived just as the wait ran out
+				default:
+				}
+			}
+			if minedHash == (common.Hash{}) {
+				col.Inc("probe_seal_result_discarded")
+				continue
+			}
+			// the mined block's write is parked in front of the chain mutex; a competing block on
+			// the same parent arrives from the network and is imported meanwhile
+			gap := int64(st.Depth)
+			if gap < 1 {
+				gap = 1
+			}
+			blocks, _ := core.GenerateChain(M.BC.GetContext(), u.Cfg, head, u.Engine, M.Disk, 1, func(k int, g *core.BlockGen) {
+				g.SetCoinbase(u.Addrs[1%len(u.Addrs)])
+				g.SetExtra([]byte(fmt.Sprintf("race%d", i)))
+				g.OffsetTime(gap - 240)
+			})
+			sib := blocks[0]
+			if sib.Time().Int64() > time.Now().Unix() {
+				time.Sleep(time.Until(time.Unix(sib.Time().Int64(), 0)) + time.Second)
+			}
+			var ierr error
+			guarded(func() {
+				_, ierr = M.BC.InsertChain(types.Blocks{types.NewBlockWithHeader(sib.Header()).WithBody(sib.Transactions(), sib.Uncles())})
+			})
+			time.Sleep(100 * time.Millisecond)
+			mid := M.BC.CurrentBlock()
+			midTD := M.BC.GetTd(mid.Hash(), mid.NumberU64())
+			release <- struct{}{}
+			time.Sleep(500 * time.Millisecond)
+			col.Inc("fault_import_overlaps_the_write_of_a_mined_block")
+			if ierr != nil || mid.Hash() != sib.Hash() {
+				col.Inc("probe_race_sibling_not_adopted")
+				if !importOwn(i) {
+					return vs
+				}
+				continue
+			}
+			tdM, tdS := M.BC.GetTd(minedHash, head.NumberU64()+1), M.BC.GetTd(sib.Hash(), sib.NumberU64())
+			now := M.BC.CurrentBlock()
+			nowTD := M.BC.GetTd(now.Hash(), now.NumberU64())
+			if tdM == nil {
+				col.Inc("probe_race_mined_block_not_stored")
+			} else {
+				want := tdS
+				if tdM.Cmp(tdS) > 0 {
+					want = tdM
+					col.Inc("probe_race_mined_block_heavier")
+				} else {
+					col.Inc("probe_race_imported_block_heavier_or_equal")
+				}
+				if nowTD == nil || nowTD.Cmp(want) != 0 {
+					add("head-not-heaviest/mined-block-written-during-an-import", i, "the node's miner found block %x (#%d, td %v) while block %x of the same height (td %v) was being imported; afterwards the head is %x with td %v, the heavier of the two has td %v", minedHash[:4], head.NumberU64()+1, tdM, sib.Hash().Bytes()[:4], tdS, now.Hash().Bytes()[:4], nowTD, want)
+					return vs
+				}
+				if nowTD.Cmp(midTD) < 0 {
+					add("head-td-decreased", i, "head td went from %v to %v when the mined block was written after the import", midTD, nowTD)
+					return vs
+				}
+			}
+			// the importer follows whatever is canonical on the miner node now
+			if imported > head.NumberU64() {
+				imported = head.NumberU64()
+			}
+			if I.BC.CurrentBlock().NumberU64() > head.NumberU64() && I.BC.GetBlockByNumber(head.NumberU64()+1) != nil && I.BC.GetBlockByNumber(head.NumberU64()+1).Hash() != now.Hash() {
+				imported = head.NumberU64()
+			}
 			if !importOwn(i) {
 				return vs
 			}
